@@ -310,8 +310,13 @@ func leaseDo4(sc leaseScenario, conn net.PacketConn, out *leaseOut) {
 }
 
 func leaseDo6(sc leaseScenario, conn net.PacketConn, out *leaseOut) {
+	// the server address is configured, as on a host with several links, WITH its zone: the
+	// multicast address is only usable together with the interface it is scoped to, and
+	// every transmission goes to exactly that address (seeded change C12-15: a defensive
+	// copy of the configured address dropping the zone)
 	c, err := nclient6.NewWithConn(conn, net.HardwareAddr(sc.hw),
-		nclient6.WithTimeout(time.Duration(sc.T)*time.Millisecond), nclient6.WithRetry(sc.n))
+		nclient6.WithTimeout(time.Duration(sc.T)*time.Millisecond), nclient6.WithRetry(sc.n),
+		nclient6.WithBroadcastAddr(&net.UDPAddr{IP: net.ParseIP("ff02::1:2"), Port: 547, Zone: leaseZone6}))
 	if err != nil {
 		panic(err)
 	}
@@ -411,6 +416,11 @@ func leaseRun(sc leaseScenario) leaseOut {
 
 // ---- canonical output -------------------------------------------------------------
 
+// leaseZone6 is the zone the DHCPv6 lease scenarios configure their server address with;
+// a destination carrying it prints as the model prints the default address, any other
+// zone (none included) shows.
+const leaseZone6 = "eth7"
+
 func leaseDestStr(a *net.UDPAddr) string {
 	if a == nil {
 		return "noaddr"
@@ -419,7 +429,11 @@ func leaseDestStr(a *net.UDPAddr) string {
 	if len(a.IP) > 0 {
 		ip = hx(a.IP)
 	}
-	return fmt.Sprintf("%s:%d", ip, a.Port)
+	s := fmt.Sprintf("%s:%d", ip, a.Port)
+	if len(a.IP) == 16 && a.IP.To4() == nil && a.Zone != leaseZone6 {
+		s += "%zone=" + hx([]byte(a.Zone))
+	}
+	return s
 }
 
 func leaseSemi(p *dhcpv4.DHCPv4, base dhcpv4.TransactionID) string {
